@@ -43,7 +43,7 @@ INTERNAL = re.compile(r"(KeyError|OpCode\.|has no attribute 'get_address'|underf
                       r"object has no attribute)")
 SCRIPT_ERRORS = re.compile(r"(division by zero|float division|modulo by zero|'str' and|and 'str'|'TimePattern'|instances of 'str'|"
                            r"can't multiply sequence|must be str|not 'str'|could not convert|Unknown format code|format spec|"
-                           r"Replacement index|tuple index|Invalid format|'bool' and 'NoneType')")
+                           r"Replacement index|tuple index|Invalid format|'bool' and 'NoneType'|not supported between instances of 'NoneType')")
 
 
 class Lazy(Lex):
@@ -267,6 +267,7 @@ def rule_worker(args):
 
 
 BASE_SCRIPTS = [
+    'assign x 4 hue {1 + {2}} if not {x > 5} on all print {{x} * {2 + {x}}}',
     'hue 120 saturation 50 brightness 25 kelvin 2700 duration 1.5 set all',
     'define blue 240 hue blue set "A" and group "G1" on location "L1"',
     'assign x 5 if {x > 3 and x < 9} begin on all end else off all',
